@@ -6,6 +6,7 @@ use serde_json::{Value, json};
 use std::io::{Read, Seek, SeekFrom, Write};
 
 pub mod alloc;
+pub mod codec;
 pub mod crash;
 pub mod faults;
 pub mod flacfile;
